@@ -781,17 +781,18 @@ CharClass(c) ==
 RECURSIVE FirstDiff(_, _, _)
 FirstDiff(a, b, i) == IF i > Len(a) \/ i > Len(b) THEN i ELSE IF a[i] # b[i] THEN i ELSE FirstDiff(a, b, i + 1)
 
-(* which original character is responsible: decode the literals of growing prefixes is not possible without the *)
-(* emitter, so the fingerprint is taken from the original string: the classes of its first character that is    *)
-(* not plain ASCII and of the character that follows it.                                                        *)
-RECURSIVE FirstOdd(_, _)
-FirstOdd(s, i) == IF i > Len(s) THEN 0 ELSE IF ~(s[i] \in 32..126) \/ s[i] \in {DQ, SQ, BSL, BTK, DOLLAR, LBR, RBR} THEN i ELSE FirstOdd(s, i + 1)
+(* The fingerprint of a wrong literal: whether it is ill-formed (and why) or denotes another value, and the   *)
+(* classes of the expected unit at which things go wrong (the first unit the literal fails to deliver) and of *)
+(* the unit after it - "hexdigit" there is the signature of an escape that swallows its neighbour.            *)
 Diagnose(kind, text, orig) ==
   LET d == Decode(kind, text)
       e == Expected(kind, orig)
-      j == FirstOdd(orig, 1)
+      got == IF d.ok THEN d.val
+             ELSE IF kind \in BytesExprKinds \/ (kind = "cpp_wchar" /\ IsCast(text)) THEN <<>>
+             ELSE Finish(LangOf(kind), Run(LangOf(kind), S0(TRUE), SourceUnits(kind, text))).acc
+      j == FirstDiff(got, e, 1)
   IN [ok |-> d.ok, why |-> d.why, val |-> d.val,
       cause |-> IF ~d.ok THEN "ill-formed" ELSE IF d.val = e THEN "none" ELSE "other value",
-      at |-> IF j = 0 THEN "none" ELSE CharClass(orig[j]),
-      next |-> IF j = 0 \/ j + 1 > Len(orig) THEN "end" ELSE CharClass(orig[j + 1])]
+      at |-> IF j > Len(e) THEN "end" ELSE CharClass(e[j]),
+      next |-> IF j + 1 > Len(e) THEN "end" ELSE IF IsHex(e[j + 1]) THEN "hexdigit" ELSE "other"]
 =============================================================================
